@@ -1084,7 +1084,7 @@ var verifC27ModelOff int
 // the unrepaired code (the answer lags one question behind, see above); false = the answer is the
 // truth. Set it to false when (*DB).ColumnNames is repaired (the recorded defect then cannot be
 // reached any more, and TestVerifC27Calibrate tells if the model and the real database disagree).
-const verifC27ReadConnectionLags = true
+const verifC27ReadConnectionLags = false
 
 type verifC27NamesCall struct {
 	table  int
